@@ -499,3 +499,174 @@ Proof.
   split; [apply reg_okb_sound; vm_compute; reflexivity|]. split; [exact Eo|].
   split; [cbn; repeat constructor|]. split; [apply orgs_node_ok; exact Hn|]. auto.
 Qed.
+
+(* ====================================================================================================== *)
+(* agent-rand2: populations made by NewPopulationRandom (genomes WITHOUT common ancestry).                 *)
+(* Proofs: proofs/RandPopWF.v, proofs/NoSinglePoint.v.                                                     *)
+(*                                                                                                        *)
+(* GInv cannot hold for such a population: its per-genome part gok contains the clause                     *)
+(*     gk_first : In (c_n0 C) (map g_innov (genes g))                                                      *)
+(* (every genome carries the innovation number of the start genome's first gene; with the lower bound of   *)
+(* ro_bound: all genomes begin with the same gene, which is what single-point crossover needs).  Two       *)
+(* randomly constructed genomes need not share a gene.  Vocabulary added:                                  *)
+(*   gokR C e R NR g     gok without gk_first (C03_weakened_invariant_clause: exactly that clause)          *)
+(*   GInvR C p e R NR    GInv over gokR; rok (the registry against the environment) is unchanged            *)
+(*   rand_ctx in out mh  io nodes (i, INPUT) 1 <= i < in, (in, BIAS), (i, OUTPUT) in+mh < i <= in+mh+out;  *)
+(*                       one trait (id 1, 8 parameters); c_n0 = 0                                           *)
+(*   heap_reg h, heap_nreg h   the registries read off all genomes of a heap                                *)
+(* Every step of an epoch preserves GInvR, provided single-point crossover is never chosen (the condition  *)
+(* on the options written out below; props/C01.v: C01_single_point_never_chosen, ..._condition_necessary). *)
+(* ====================================================================================================== *)
+From NeatModel Require Import RandGenome NoSinglePoint RandPopWF.
+
+Theorem C03_weakened_invariant_clause : forall C e R NR g,
+    gok C e R NR g <-> gokR C e R NR g /\ In (c_n0 C) (map g_innov (genes g)).
+Proof. exact gok_iff_gokR. Qed.
+Print Assumptions C03_weakened_invariant_clause.
+
+Theorem C03_weakened_invariant_vocabulary :
+  (forall C e R NR g, gokR C e R NR g <->
+     wf g /\ env_ok e g /\ (forall x, In x (genes g) -> In (g_innov x, (g_in x, g_out x, g_rec x)) R) /\
+     (forall n, In n (nodes g) -> In (n_id n, n_type n) NR) /\ incl (c_io C) (io_nodes g) /\
+     map (fun t => (t_id t, List.length (t_params t))) (traits g) = c_tshape C) /\
+  (forall C p e R NR, GInvR C p e R NR <-> rok C e R NR /\ forall x, In x (p_heap p) -> gokR C e R NR (Population.o_genome x)) /\
+  (forall C p e R NR, GInv C p e R NR -> GInvR C p e R NR) /\
+  (forall in_ out mh,
+     c_io (rand_ctx in_ out mh) =
+       (map (fun i => (i, if Z.eqb i in_ then BIAS else INPUT)) (for_range 1 in_) ++
+        map (fun i => (i, OUTPUT)) (for_range (in_ + mh + 1) (in_ + out + mh)))%list /\
+     c_tshape (rand_ctx in_ out mh) = [(1, 8%nat)] /\ c_n0 (rand_ctx in_ out mh) = 0) /\
+  (forall h, heap_reg h = flat_map (fun x => map (fun y => (g_innov y, (g_in y, g_out y, g_rec y))) (genes (Population.o_genome x))) h) /\
+  (forall h, heap_nreg h = flat_map (fun x => map (fun n => (n_id n, n_type n)) (nodes (Population.o_genome x))) h).
+Proof.
+  split; [|split; [|split; [exact GInv_GInvR|split; [|split]]]]; try (intros; reflexivity).
+  - intros C e R NR g. split.
+    + intros [A B D E F G]. exact (conj A (conj B (conj D (conj E (conj F G))))).
+    + intros (A & B & D & E & F & G). constructor; assumption.
+  - intros C p e R NR. split.
+    + intros [A B]. split; [exact A|exact B].
+    + intros [A B]. constructor; [exact A|exact B].
+  - intros in_ out mh. repeat split.
+Qed.
+Print Assumptions C03_weakened_invariant_vocabulary.
+
+(* NewPopulationRandom establishes the weakened invariant when every constructed genome has a gene *)
+Theorem C03_random_population_invariant : forall o in_ out max_hidden recurrent link_prob s0 p s,
+    1 <= in_ -> 1 <= out -> innovs (s_env s0) = [] ->
+    new_population_random o in_ out max_hidden recurrent link_prob s0 = Ok (p, s) ->
+    (forall x, In x (p_heap p) -> genes (Population.o_genome x) <> []) ->
+    GInvR (rand_ctx in_ out max_hidden) p (s_env s) (heap_reg (p_heap p)) (heap_nreg (p_heap p)) /\ innovs (s_env s) = [].
+Proof. exact GInvR_random. Qed.
+Print Assumptions C03_random_population_invariant.
+
+(* one epoch preserves it when single-point crossover is never chosen (C03_step for GInvR) *)
+Theorem C03_step_random : forall C o gen p x s p' x' s' R NR,
+    (PrimFloat.leb 1 (o_mate_multi o) = true \/
+     PrimFloat.leb 1 (PrimFloat.div (o_mate_multi_avg o) (PrimFloat.add (o_mate_multi_avg o) (o_mate_single o))) = true) ->
+    GInvR C p (s_env s) R NR -> next_epoch o gen p x s = Ok ((p', x'), s') ->
+    exists R' NR',
+      incl R R' /\ incl NR NR' /\ GInvR C p' (s_env s') R' NR' /\ innovs (s_env s') = [] /\
+      next_innov (s_env s) <= next_innov (s_env s') /\ next_node (s_env s) <= next_node (s_env s') /\
+      (forall n k, In (n, k) R' -> In (n, k) R \/ next_innov (s_env s) < n) /\
+      (forall i t, In (i, t) NR' -> In (i, t) NR \/ next_node (s_env s) < i).
+Proof.
+  intros C o gen p x s p' x' s' R NR NS G H.
+  destruct (GInvR_step C o gen p x s p' x' s' R NR NS G H) as (R' & NR' & [A1 A2 A3 A4 A5 A6] & G' & E).
+  exists R', NR'. split; [exact A3|]. split; [exact A4|]. split; [exact G'|]. split; [exact E|]. auto.
+Qed.
+Print Assumptions C03_step_random.
+
+(* ... and so does any number of epochs (C03_history for GInvR) *)
+Theorem C03_history_random : forall C o p s l p' s' R NR,
+    (PrimFloat.leb 1 (o_mate_multi o) = true \/
+     PrimFloat.leb 1 (PrimFloat.div (o_mate_multi_avg o) (PrimFloat.add (o_mate_multi_avg o) (o_mate_single o))) = true) ->
+    GInvR C p (s_env s) R NR -> history o p s l p' s' ->
+    exists R' NR',
+      incl R R' /\ incl NR NR' /\ GInvR C p' (s_env s') R' NR' /\
+      (forall n k, In (n, k) R' -> In (n, k) R \/ next_innov (s_env s) < n) /\
+      (forall i t, In (i, t) NR' -> In (i, t) NR \/ next_node (s_env s) < i) /\
+      forall q, In q l -> exists e, hall (gokR C e R' NR') (p_heap q).
+Proof. intros C o p s l p' s' R NR NS G H. exact (GInvR_history C o p s l p' s' NS H R NR G). Qed.
+Print Assumptions C03_history_random.
+
+(* C03_one_link_per_number / C03_one_role_per_node_id for random populations: across the whole history of a
+   randomly constructed population (every constructed genome has a gene; single-point crossover never chosen)
+   any two genes with the same innovation number join the same source and target node ids with the same
+   recurrence flag, and a node id never denotes nodes of different roles *)
+Theorem C03_one_link_per_number_random :
+  forall o in_ out max_hidden recurrent link_prob s0 p s l p' s',
+    1 <= in_ -> 1 <= out -> innovs (s_env s0) = [] ->
+    (PrimFloat.leb 1 (o_mate_multi o) = true \/
+     PrimFloat.leb 1 (PrimFloat.div (o_mate_multi_avg o) (PrimFloat.add (o_mate_multi_avg o) (o_mate_single o))) = true) ->
+    new_population_random o in_ out max_hidden recurrent link_prob s0 = Ok (p, s) ->
+    (forall x, In x (p_heap p) -> genes (Population.o_genome x) <> []) ->
+    history o p s l p' s' ->
+    forall pa pb a b xa xb,
+      In pa (p :: l) -> In pb (p :: l) -> In a (p_heap pa) -> In b (p_heap pb) ->
+      In xa (genes (Population.o_genome a)) -> In xb (genes (Population.o_genome b)) -> g_innov xa = g_innov xb ->
+      g_in xa = g_in xb /\ g_out xa = g_out xb /\ g_rec xa = g_rec xb.
+Proof.
+  intros o in_ out mh rc lp s0 p s l p' s' Hin Hout Ei NS Hn Hne Hh pa pb a b xa xb Hpa Hpb Ha Hb Hxa Hxb E.
+  pose proof (proj1 (random_history_one_link_per_number o in_ out mh rc lp s0 p s l p' s' Hin Hout Ei NS Hn Hne Hh
+                       pa pb a b Hpa Hpb Ha Hb) xa xb Hxa Hxb E) as K.
+  unfold link_key in K. injection K as -> -> ->. auto.
+Qed.
+Print Assumptions C03_one_link_per_number_random.
+
+Theorem C03_one_role_per_node_id_random :
+  forall o in_ out max_hidden recurrent link_prob s0 p s l p' s',
+    1 <= in_ -> 1 <= out -> innovs (s_env s0) = [] ->
+    (PrimFloat.leb 1 (o_mate_multi o) = true \/
+     PrimFloat.leb 1 (PrimFloat.div (o_mate_multi_avg o) (PrimFloat.add (o_mate_multi_avg o) (o_mate_single o))) = true) ->
+    new_population_random o in_ out max_hidden recurrent link_prob s0 = Ok (p, s) ->
+    (forall x, In x (p_heap p) -> genes (Population.o_genome x) <> []) ->
+    history o p s l p' s' ->
+    forall pa pb a b na nb,
+      In pa (p :: l) -> In pb (p :: l) -> In a (p_heap pa) -> In b (p_heap pb) ->
+      In na (nodes (Population.o_genome a)) -> In nb (nodes (Population.o_genome b)) -> n_id na = n_id nb -> n_type na = n_type nb.
+Proof.
+  intros o in_ out mh rc lp s0 p s l p' s' Hin Hout Ei NS Hn Hne Hh pa pb a b na nb Hpa Hpb Ha Hb Hna Hnb E.
+  exact (proj2 (random_history_one_link_per_number o in_ out mh rc lp s0 p s l p' s' Hin Hout Ei NS Hn Hne Hh
+                  pa pb a b Hpa Hpb Ha Hb) na nb Hna Hnb E).
+Qed.
+Print Assumptions C03_one_role_per_node_id_random.
+
+(* non-vacuity: rand.Seed(42), NewPopulationRandom(3, 2, 3, true, 0.5), PopSize 8, MateSinglepointProb 0
+   (MateMultipointProb 0.6, MateMultipointAvgProb 0.4), compatibility threshold 100: every constructed genome has
+   a gene, two epochs succeed with babies made by crossover in both, and the registries read off all three
+   populations are functional *)
+Definition ex_rand_opts : options :=
+  OPT [0x1p-01%float; 0x1p+00%float; 0x1.4p+01%float; 0x1p+00%float; 0x1p+00%float; 0x1.999999999999ap-02%float;
+       0x1.9p+6%float; 0x1p+00%float; 0x1.999999999999ap-03%float; 0x1p-02%float; 0x1.999999999999ap-04%float;
+       0x1.999999999999ap-04%float; 0x1.999999999999ap-04%float; 0x1.ccccccccccccdp-01%float; 0x1.999999999999ap-04%float;
+       0x1.999999999999ap-04%float; 0x1.3333333333333p-02%float; 0x1p-01%float; 0x1.999999999999ap-04%float;
+       0x1.999999999999ap-04%float; 0x1.3333333333333p-01%float; 0x1.999999999999ap-02%float; 0%float;
+       0x1.999999999999ap-03%float; 0x1.999999999999ap-03%float] 8 15 20 0 false [4; 11] [0x1p-1%float; 0x1p-1%float].
+
+Example C03_random_example :
+  (PrimFloat.leb 1 (o_mate_multi ex_rand_opts) = true \/
+   PrimFloat.leb 1 (PrimFloat.div (o_mate_multi_avg ex_rand_opts)
+                                  (PrimFloat.add (o_mate_multi_avg ex_rand_opts) (o_mate_single ex_rand_opts))) = true) /\
+  exists p s l p' s',
+    new_population_random ex_rand_opts 3 2 3 true 0x1p-1%float ex_s0 = Ok (p, s) /\
+    (forall x, In x (p_heap p) -> genes (Population.o_genome x) <> []) /\
+    history ex_rand_opts p s l p' s' /\ List.length l = 2%nat /\
+    forallb (fun q => existsb Population.o_mate (p_heap q)) l = true /\
+    functionalb key_eqb (all_genes (p :: l)) = true /\ functionalb Z.eqb (all_nodes (p :: l)) = true.
+Proof.
+  split; [right; vm_compute; reflexivity|].
+  assert (H : match run_random ex_rand_opts 3 2 3 true 0x1p-1%float ex_s0 ex_fit 2 with
+              | Ok (p :: l, _) => forallb (fun x => negb (Nat.eqb (List.length (genes (Population.o_genome x))) 0)) (p_heap p) &&
+                                  forallb (fun q => existsb Population.o_mate (p_heap q)) l &&
+                                  (functionalb key_eqb (all_genes (p :: l)) && functionalb Z.eqb (all_nodes (p :: l)))
+              | _ => false
+              end = true) by (vm_compute; reflexivity).
+  destruct (run_random ex_rand_opts 3 2 3 true 0x1p-1%float ex_s0 ex_fit 2) as [[l0 s2]| | | | |] eqn:E;
+    try discriminate H.
+  destruct (run_random_history _ _ _ _ _ _ _ _ _ _ _ E) as (p & s & l & p' & s' & A & Hh & Hl & ->).
+  apply andb_true_iff in H. destruct H as [H H3]. apply andb_true_iff in H. destruct H as [H1 H2].
+  apply andb_true_iff in H3. destruct H3 as [H3 H4].
+  exists p, s, l, p', s'. split; [exact A|]. split.
+  - intros x Hx G. rewrite forallb_forall in H1. specialize (H1 x Hx). rewrite G in H1. discriminate H1.
+  - split; [exact Hh|]. split; [exact Hl|]. split; [exact H2|]. split; [exact H3|exact H4].
+Qed.
